@@ -521,7 +521,7 @@ def completion_outside_sending_order(F, R, ver):
     for bi, t, ap in takes:
         if bi in blind:
             continue
-        og = Origin(p).of_operand(t['args'][1])
+        og = Origin(p, transparent=re.compile(TRANSPARENT_CALLS.pattern[:-2] + r'|branch|unwrap|expect)$')).of_operand(t['args'][1])   # (`remove(pos?)`)
         poss = [l[2] for l in og if l[0] == 'call' and l[1].endswith('Iterator::position') and isinstance(l[2], int)]
         if not poss:
             selective = False
